@@ -279,16 +279,16 @@ func ruleC15(w *World, r *Report) {
 	}
 
 	// ids of shared objects: released only in a function that has applied the DELETE of the entry that carries the id
-	for _, x := range []struct{ fn, release, what string }{
-		{"removeInternalApplicationIDAndGetP4rtEntry", "unsafeReleaseInternalApplicationID", "application id"},
-		{"removeGTPTunnelPeer", "unsafeReleaseAllocatedGTPTunnelPeer", "tunnel-peer id"},
+	// (a release is the id going back to its pool: through the release helper, or appended to the pool in place)
+	for _, x := range []struct{ fn, release, pool, what string }{
+		{"removeInternalApplicationIDAndGetP4rtEntry", "unsafeReleaseInternalApplicationID", "applicationIDsPool", "application id"},
+		{"removeGTPTunnelPeer", "unsafeReleaseAllocatedGTPTunnelPeer", "tunnelPeerIDsPool", "tunnel-peer id"},
 	} {
 		f := up(x.fn)
-		rel := up(x.release)
-		for _, c := range callsTo(f, rel) {
+		for _, c := range idReleaseSites(f, w.FnOpt("pfcpiface.(*UP4)."+x.release), x.pool) {
 			applied := false
 			allInstrs(f, func(i ssa.Instruction) {
-				if wc, ok := i.(*ssa.Call); ok && staticCallee(wc) != nil && staticCallee(wc).Name() == "ApplyTableEntries" && instrDominates(wc, c.(ssa.Instruction)) {
+				if wc, ok := i.(*ssa.Call); ok && staticCallee(wc) != nil && staticCallee(wc).Name() == "ApplyTableEntries" && instrDominates(wc, c) {
 					applied = true
 				}
 			})
@@ -843,29 +843,38 @@ func ruleC15Ownership(w *World, r *Report) {
 	}
 }
 
+// idReleaseSites: where g gives an id back to the named pool of UP4: the calls of the pool's release helper
+// (nil when the tree has none: the helper is a convenience — a release is the append, wherever it is written)
+// and the direct appends to the pool field.
+func idReleaseSites(g *ssa.Function, helper *ssa.Function, pool string) []ssa.Instruction {
+	var sites []ssa.Instruction
+	if helper != nil {
+		for _, c := range callsTo(g, helper) {
+			sites = append(sites, c.(ssa.Instruction))
+		}
+	}
+	allInstrs(g, func(i ssa.Instruction) {
+		if st, ok := i.(*ssa.Store); ok {
+			if fa, ok := st.Addr.(*ssa.FieldAddr); ok && fieldVar(fa) != nil && fieldVar(fa).Name() == pool {
+				if c, ok := st.Val.(*ssa.Call); ok && calleeName(c) == "builtin.append" {
+					sites = append(sites, i)
+				}
+			}
+		}
+	})
+	return sites
+}
+
 // ruleC15TunnelRelease (R15.3; re-filed under C11 as R11.7: the tunnel peer is shared by associations).
 func ruleC15TunnelRelease(w *World, r *Report, P string) {
 	up := func(name string) *ssa.Function { return w.Fn(P, "pfcpiface.(*UP4)."+name) }
 	f := up("addOrUpdateGTPTunnelPeer")
 	fn := w.FuncName(f)
-	release := up("unsafeReleaseAllocatedGTPTunnelPeer")
+	release := w.FnOpt("pfcpiface.(*UP4).unsafeReleaseAllocatedGTPTunnelPeer")
 	n := 0
 	for _, g := range withClosures(f) {
 		// release sites: calls of the release function, and direct returns of an ID to the queue
-		var sites []ssa.Instruction
-		for _, c := range callsTo(g, release) {
-			sites = append(sites, c.(ssa.Instruction))
-		}
-		allInstrs(g, func(i ssa.Instruction) {
-			if st, ok := i.(*ssa.Store); ok {
-				if fa, ok := st.Addr.(*ssa.FieldAddr); ok && fieldVar(fa) != nil && fieldVar(fa).Name() == "tunnelPeerIDsPool" {
-					if c, ok := st.Val.(*ssa.Call); ok && calleeName(c) == "builtin.append" {
-						sites = append(sites, i)
-					}
-				}
-			}
-		})
-		for _, c := range sites {
+		for _, c := range idReleaseSites(g, release, "tunnelPeerIDsPool") {
 			n++
 			// "this call allocated the id" is the lookup's absence, tested directly or carried in a local
 			// that can hold the tested value only when the absence branch was taken (boolImplies).
